@@ -291,6 +291,10 @@ fn run_case(w: &mut World, g: &mut Gen) -> Outcome {
     let mut disturbed = false; // a cancel, re-initiate, lock toggle or stop happened
     let mut ever_recovery = [false; 2];
     let mut ever_withdraw = [false; 2];
+    // generator memory (not part of the oracle): proposals / attempts that were cancelled, superseded or
+    // already confirmed - confirms are steered towards them as well
+    let mut ghost_recovery: [Option<usize>; 2] = [None, None];
+    let mut ghost_withdraw = [false; 2];
     let mut confirm_after_disturbance = false;
     let mut n_success = 0u64;
 
@@ -359,6 +363,32 @@ fn run_case(w: &mut World, g: &mut Gen) -> Outcome {
             if m.recovery[R].is_some() && ctl.delay.is_some() && !m.timer_running {
                 live.push(Call::Timed); // after a stop
             }
+            for a in [P, R] {
+                if m.recovery[a].is_none() && ghost_recovery[a].is_some() {
+                    live.push(Call::QuickRecovery(a));
+                    if a == R && ctl.delay.is_some() {
+                        live.push(Call::Timed);
+                    }
+                }
+                if m.withdraw[a].is_none() && ghost_withdraw[a] {
+                    live.push(Call::QuickWithdraw(a));
+                }
+            }
+            if !live.is_empty() {
+                call = *g.pick(&live);
+            }
+        }
+        // now and then cancel something that is pending
+        if !call.is_confirm() && g.chance(1, 8) {
+            let mut live: Vec<Call> = Vec::new();
+            for a in [P, R] {
+                if m.recovery[a].is_some() {
+                    live.push(Call::CancelRecovery(a));
+                }
+                if m.withdraw[a].is_some() {
+                    live.push(Call::CancelWithdraw(a));
+                }
+            }
             if !live.is_empty() {
                 call = *g.pick(&live);
             }
@@ -366,8 +396,8 @@ fn run_case(w: &mut World, g: &mut Gen) -> Outcome {
         // which proposal it carries
         let proposal: Option<usize> = if call.takes_proposal() {
             let relevant = match call {
-                Call::QuickRecovery(a) => m.recovery[a].as_ref().map(|p| p.proposal),
-                Call::Timed | Call::Stop => m.recovery[R].as_ref().map(|p| p.proposal),
+                Call::QuickRecovery(a) => m.recovery[a].as_ref().map(|p| p.proposal).or(ghost_recovery[a]),
+                Call::Timed | Call::Stop => m.recovery[R].as_ref().map(|p| p.proposal).or(ghost_recovery[R]),
                 _ => None,
             };
             match relevant {
@@ -503,6 +533,10 @@ fn run_case(w: &mut World, g: &mut Gen) -> Outcome {
                     None => {
                         if ever_recovery[a] {
                             g.label("refused: quick confirm of a cancelled / superseded proposal");
+                            let second = call.template().iter().any(|b| satisfied(&m.rules, env, &presented, *b));
+                            if second && ghost_recovery[a].is_some() && ghost_recovery[a] == proposal {
+                                g.label("refused: qualified quick confirm carrying exactly the cancelled / superseded proposal");
+                            }
                         }
                     }
                 },
@@ -593,6 +627,14 @@ fn run_case(w: &mut World, g: &mut Gen) -> Outcome {
                     m.asset_gone = true;
                     g.label("quick confirm of a badge withdraw succeeds");
                 }
+                for x in [P, R] {
+                    if let Some(p) = &m.recovery[x] {
+                        ghost_recovery[x] = Some(p.proposal);
+                    }
+                    if m.withdraw[x].is_some() {
+                        ghost_withdraw[x] = true;
+                    }
+                }
                 m.recovery = [None, None];
                 m.withdraw = [None, None];
                 m.timer_running = false;
@@ -642,6 +684,14 @@ fn run_case(w: &mut World, g: &mut Gen) -> Outcome {
                 if minute(now) == minute(p.at_ms) + ctl.delay.unwrap() as i64 {
                     g.label("timed confirm exactly at the boundary minute");
                 }
+                for x in [P, R] {
+                    if let Some(p) = &m.recovery[x] {
+                        ghost_recovery[x] = Some(p.proposal);
+                    }
+                    if m.withdraw[x].is_some() {
+                        ghost_withdraw[x] = true;
+                    }
+                }
                 m.recovery = [None, None];
                 m.withdraw = [None, None];
                 m.timer_running = false;
@@ -674,6 +724,9 @@ fn run_case(w: &mut World, g: &mut Gen) -> Outcome {
                         m.withdraw[a] = Some(satisfied(&m.rules, env, &presented, a));
                     }
                     Call::CancelRecovery(a) => {
+                        if let Some(p) = &m.recovery[a] {
+                            ghost_recovery[a] = Some(p.proposal);
+                        }
                         m.recovery[a] = None;
                         if a == R {
                             m.timer_running = false;
@@ -681,6 +734,9 @@ fn run_case(w: &mut World, g: &mut Gen) -> Outcome {
                         disturbed = true;
                     }
                     Call::CancelWithdraw(a) => {
+                        if m.withdraw[a].is_some() {
+                            ghost_withdraw[a] = true;
+                        }
                         m.withdraw[a] = None;
                         disturbed = true;
                     }
